@@ -17,7 +17,7 @@ RULE = ('(1) small scope: alphabets 2-4, every sequence of length 1..5 (quick ti
         '(A,L) and 8 sampled motifs per length. (2) systematic positions with sampled content: '
         'multisubstitute (sequence length 4..8) over every pair of motif lengths 1-3 x spacing in '
         '{-1,0,1,2,L-1,L} x start in [-2,L+2] and the default start; randomize over every (start,end) in [-2,L+2]^2; per-example motifs at every '
-        'start. (3) seeded random cases (L<=60, batch<=6, alphabets 2-6, string/tensor, shared/per-example '
+        'start and the default start. (3) seeded random cases (L<=60, batch<=6, alphabets 2-6, string/tensor, shared/per-example '
         'motifs, 1-4 motifs with spacing lists): 60% drawn inside the scope with positions biased to the '
         'boundaries (0, L-m, L), 40% from a boundary/malformed stream (positions within 4 of 0 and L, '
         'all-zero / two-ones / value-2 columns, wrong alphabet, wrong motif batch, motif longer than X, bad '
@@ -26,12 +26,13 @@ RULE = ('(1) small scope: alphabets 2-4, every sequence of length 1..5 (quick ti
 # thorough: the enumeration (1) is complete for A<=4, L<=5, motif length<=3, shared motif, start in
 # [-3,L+3] (substitute, insert) and (start,end) in [-2,L+2]^2 (delete); everything else is sampled.
 EXHAUSTIVE = {'quick': False, 'thorough': True}
-TRUSTED = ['compact case literals: an all-one-hot batch is written as the matrix of the indices of its 1s and '
-           'expanded by C01/Lit.v:dec inside Coq (any other batch is written in full)',
+TRUSTED = ['compact case literals: an all-one-hot batch is written as one base-8 numeral per sequence (digit q = '
+           'index of the 1 in column q) and expanded by C01/Lit.v:decn inside Coq (any other batch is written in full)',
            'randomize: the drawn replacement is obtained by replaying numpy RandomState through utils.random_one_hot']
 ASSUMPTIONS = ['torch slicing/cat/clone implement list surgery (exercised by every case)',
                'aliasing ("caller tensors unmodified") is observed by the harness, not modelled']
 LETTERS = 'ACGTXY'
+SHARD = 1000
 
 # column codes: k>=0 one-hot at k; -1 all-zero; -2 two ones; -3 contains a 2
 
@@ -67,18 +68,30 @@ def from_tensor(Y):
     return Y.permute(0, 2, 1).to(torch.int64).tolist()
 
 
+def packed(A, codes):
+    """all-one-hot batch given as column indices -> '(decn A L [n; ...])' (see coq/C01/Lit.v)"""
+    L = len(codes[0])
+    ns = []
+    for s in codes:
+        n = 0
+        for q, k in enumerate(s):
+            n |= k << (3 * q)
+        ns.append(n)
+    return '(decn %s %s %s)' % (C.nat(A), C.nat(L), C.zlist(ns))
+
+
 def codes_lit(A, codes):
     """batch given as column codes -> Coq term of type batch"""
-    if all(k >= 0 for s in codes for k in s):
-        return '(dec %s %s)' % (C.nat(A), C.zmat(codes))
+    if codes and A <= 8 and all(0 <= k < A for s in codes for k in s):
+        return packed(A, codes)
     return C.batch_lit([[column(A, k) for k in s] for s in codes])
 
 
 def nested_lit(Y):
-    """batch given as nested 0/1 lists [B][L][A'] -> Coq term of type batch (compact when every
-    column is one-hot over one common width)"""
+    """batch given as nested 0/1 lists [B][L][A'] -> Coq term of type batch (packed when every
+    column is one-hot over one common width <= 8)"""
     widths = {len(c) for s in Y for c in s}
-    if len(widths) == 1:
+    if len(widths) == 1 and len({len(s) for s in Y}) == 1:
         A = widths.pop()
         codes = []
         for s in Y:
@@ -88,8 +101,8 @@ def nested_lit(Y):
                     return C.batch_lit(Y)
                 row.append(c.index(1))
             codes.append(row)
-        if A < 5000:
-            return '(dec %s %s)' % (C.nat(A), C.zmat(codes))
+        if A <= 8:
+            return packed(A, codes)
     return C.batch_lit(Y)
 
 
@@ -274,7 +287,7 @@ def gen_positions(tier, rng):
             X = [rand_seq(rng, A, L) for _ in range(B)]
             # per-example motifs, every start
             for m in (1, 2, 3):
-                for start in range(-3, L + 4):
+                for start in list(range(-3, L + 4)) + [None]:
                     M = {'form': 'tensor', 'A': A, 'seqs': [rand_seq(rng, A, m) for _ in range(B)]}
                     yield {'kind': 'sub', 'A': A, 'X': X, 'M': M, 'start': start}
                     yield {'kind': 'ins', 'A': A, 'X': X, 'M': M, 'start': start}
